@@ -4106,6 +4106,13 @@ class FlowIR(object):
             if value is not None:
                 return int(value)
 
+        def to_bool(value):
+            # VV: bool("false") and bool("no") are True, convert strings via str_to_bool() which raises an
+            # exception for strings that do not represent a boolean (the exception gets reported as an invalid field)
+            if isinstance(value, string_types):
+                return str_to_bool(value)
+            return bool(value)
+
         expected_types = {
             'command': {
                 'arguments': str,
@@ -4118,16 +4125,16 @@ class FlowIR(object):
             'workflowAttributes': {
                 'restartHookFile': str,
                 'replicate': int,
-                'aggregate': bool,
-                'isMigratable': bool,
-                'isMigrated': bool,
+                'aggregate': to_bool,
+                'isMigratable': to_bool,
+                'isMigrated': to_bool,
                 'repeatInterval': int,
                 'repeatRetries': int,
-                'isRepeat': bool,
+                'isRepeat': to_bool,
                 # VV: when maxRestarts is None, the Engine/RepeatingEngine objects decides max number of restarts
                 'maxRestarts': optional_int,
                 'optimizer': {
-                    'disable': bool,
+                    'disable': to_bool,
                     'exploitChance': float,
                     'exploitTarget': float,
                     'exploitTargetLow': float,
